@@ -416,9 +416,9 @@ func c20(env *Env, rep *Report) {
 		return
 	}
 	distinct := 0
-	maxEx := 4000
+	maxEx := 40000
 	if env.thorough() {
-		maxEx = 60000
+		maxEx = 400000
 	}
 	for i, sc := range scs {
 		if !env.mine(i) {
